@@ -363,6 +363,19 @@ def _convert_csp_to_z3(csp: list[FNode]) -> list:
     return [converter.convert(expr) for expr in csp]
 
 
+def _int_assignments(m: Any) -> dict[str, int]:
+    """Integer-valued assignments of a z3 model as a plain dict.
+
+    Models produced under Pareto optimisation can contain auxiliary Boolean declarations
+    introduced by the optimiser; only integer values belong to the solution.
+    """
+    return {
+        d.name(): cast(Any, m[d]).as_long()
+        for d in m.decls()
+        if z3.is_int_value(m[d])
+    }
+
+
 def solve_and_get_model(
     csp: list[FNode], minimize_vars: list[str] | None = None
 ) -> dict[str, int] | None:
@@ -385,7 +398,7 @@ def solve_and_get_model(
         s.add(*z3_csp)
         if s.check() == z3.sat:
             m = s.model()
-            return {d.name(): cast(Any, m[d]).as_long() for d in m.decls()}
+            return _int_assignments(m)
         return None
 
     # Otherwise build an optimiser.
@@ -400,7 +413,7 @@ def solve_and_get_model(
     # Enumerate first Pareto-optimal model (suffices since *priority='pareto'*).
     if opt.check() == z3.sat:
         m = opt.model()
-        return {d.name(): cast(Any, m[d]).as_long() for d in m.decls()}
+        return _int_assignments(m)
 
     return None
 
@@ -449,7 +462,7 @@ def solve_pareto_front(
     results: list[dict[str, int]] = []
     while opt.check() == z3.sat:
         m = opt.model()
-        results.append({d.name(): cast(Any, m[d]).as_long() for d in m.decls()})
+        results.append(_int_assignments(m))
         if max_solutions is not None and len(results) >= max_solutions:
             break
 
